@@ -209,7 +209,10 @@ def response(qr, case, out, E=None, J=None, dip=None, widths=None, pol=None, rot
             # the response object normalised by the caller (maximum read, then divided), then read again
             tw.set_data_flag(qr.signal_TOTL)
             mx = float(tw.get_max_value())
-            if mx != 0.0 and numpy.isfinite(mx):
+            # (the maximum of the real part can be zero or negligible, e.g. for oblique polarisations with a vanishing response: a
+            #  program would not normalise by it)
+            amp = float(numpy.max(numpy.abs(res[qr.signal_TOTL]))) if res.get(qr.signal_TOTL) is not None else 0.0
+            if numpy.isfinite(mx) and amp > 0 and abs(mx) > 1e-6 * amp:
                 tw.devide_by(mx)
                 after = {}
                 for f in (qr.signal_TOTL, qr.signal_REPH, qr.signal_NONR):
@@ -231,6 +234,8 @@ def run_case(case, ctx):
     det = {"N": N, "pol": case["polclass"], "shape": case["shape"], "relaxing": case["relaxing"], "class": case["cls"]}
     _state["on"] = True
     _state["seen"] = 0
+    _state.pop("after_divide", None)       # what the base call of THIS case leaves behind (nothing, if it decides not to normalise)
+    _state.pop("pw_routes", None)
     try:
         with ctx.lib("2D response calculation", mechanism=None):
             base, npw = response(qr, case, out)
